@@ -120,6 +120,13 @@ var c07Catalogue = []construct{
 	{Name: "call-through-double-index", Stmt: "zqfs := make([][]func(uint64) uint64, 1)\nzqfs[0] = make([]func(uint64) uint64, 1)\nzqfs[0][0] = zqId\n_ = zqfs[0][0](1)", Support: []string{supId}},
 	{Name: "call-through-index", Stmt: "zqfs := make([]func(uint64) uint64, 1)\nzqfs[0] = zqId\n_ = zqfs[0](1)", Support: []string{supId}},
 	{Name: "parenthesised-callee", Stmt: "_ = (zqId)(1)", Support: []string{supId}},
+	{Name: "mutual-recursion", Decl: "func zqEven(n uint64) bool {\n\tif n == 0 {\n\t\treturn true\n\t}\n\treturn zqOdd(n - 1)\n}", Broken: "zqEven", Support: []string{"func zqOdd(n uint64) bool {\n\tif n == 0 {\n\t\treturn false\n\t}\n\treturn zqEven(n - 1)\n}"}},
+	{Name: "three-cycle-recursion", Decl: "func zqA3(n uint64) uint64 {\n\tif n == 0 {\n\t\treturn 0\n\t}\n\treturn zqB3(n - 1)\n}", Broken: "zqA3", Support: []string{"func zqB3(n uint64) uint64 {\n\tif n == 0 {\n\t\treturn 1\n\t}\n\treturn zqC3(n - 1)\n}", "func zqC3(n uint64) uint64 {\n\tif n == 0 {\n\t\treturn 2\n\t}\n\treturn zqA3(n - 1)\n}"}},
+	{Name: "mutually-referring-structs", Decl: "type zqNodeA struct {\n\tnext *zqNodeB\n\tkids []zqNodeB\n}", Broken: "zqNodeA", Support: []string{"type zqNodeB struct {\n\tback *zqNodeA\n\tm    map[uint64]zqNodeA\n}"}},
+	{Name: "method-and-function-cycle", Decl: "func (t *zqT) zqwalk(n uint64) uint64 {\n\tif n == 0 {\n\t\treturn t.a\n\t}\n\treturn zqWalkT(t, n-1)\n}", Broken: "zqT.zqwalk", Support: []string{supT, "func zqWalkT(t *zqT, n uint64) uint64 {\n\treturn t.zqwalk(n)\n}"}},
+	{Name: "early-return-else-if", Stmt: "var zqx uint64 = 1\nif zqx > 5 {\n\treturn\n} else if zqx == 1 {\n\tzqx = 7\n}\nzqx += 2\n_ = zqx"},
+	{Name: "early-return-else-if-else", Stmt: "var zqx uint64 = 1\nif zqx > 5 {\n\treturn\n} else if zqx == 1 {\n\tzqx = 7\n} else {\n\tzqx = 8\n}\nzqx += 2\n_ = zqx"},
+	{Name: "loop-break-else-if", Stmt: "var zqx uint64 = 1\nfor {\n\tif zqx > 3 {\n\t\tbreak\n\t} else if zqx == 1 {\n\t\tzqx = 7\n\t}\n\tzqx += 2\n}"},
 	{Name: "iota-constant-block", Decl: "const (\n\tzqA = iota\n\tzqB\n)", Broken: "zqA"},
 	{Name: "grouped-var-block", Decl: "var (\n\tzqV1 uint64 = 1\n\tzqV2 uint64 = 2\n)", Broken: "zqV1"},
 	{Name: "grouped-type-declaration", Decl: "type (\n\tzqG1 uint64\n\tzqG2 uint64\n)", Broken: "zqG1"},
